@@ -471,7 +471,7 @@ static bool sawRepaired() {
 
 // ------------------------------------------------------------------ fixed witness cases (lowest indices)
 static Vector vec(std::initializer_list<double> l) { Vector v(l.size()); size_t i = 0; for (double x : l) v[i++] = x; return v; }
-static const long kFixed = 26;
+static const long kFixed = 27;
 static bool g_thorough = false;
 // cases that exercise sawtoothInterpolation where no stored point helps (the as-found source indexes / reads
 // what is not there): kept in their own cases so a crash is attributed exactly
@@ -600,6 +600,14 @@ static void fixed_case(long idx) {
         }
         emit_wlp({}, vec({0x1p20, 1}), vec({-1, -0x1p20}), 2);
         emit_wlp({vec({3, 1})}, vec({0x1p20, 1}), vec({1, 3}), 2);                  // the scale comes from the FIRST optimal row, not from the question
+        break; }
+    case 26: { // frozen witness of C12-witnesslp-mixed-magnitudes (found by the mixed-magnitude generator, seed 1): entries 3*2^23 next to
+               // order-one entries; (-3/4, 3*2^23, -3*2^23 + 1/4) is 1/8 above all others at (0,1/2,1/2), where the envelope of the rest is 0;
+               // lp_solve (default scaling mode 196) reports INFEASIBLE for the feasible witness LP, Pruner drops the vector
+        const double H = 0x1p23;
+        emit_wlp({vec({1.25, 3 * H, -3 * H}), vec({0.5, -3 * H, 3 * H})}, vec({-0.75, 3 * H, -3 * H + 0.25}), vec({-0.75, 3 * H, -3 * H + 0.25}), 3);
+        VList v{vec({-2.5, -2 * H, 2 * H}), vec({-2.75, -3 * H, 3 * H}), vec({-0.75, 3 * H, -3 * H + 0.25}), vec({-1, 3 * H, -3 * H}), vec({1.25, 3 * H, -3 * H}), vec({0.5, -3 * H, 3 * H})};
+        emit_prune(v, 3);
         break; }
     case 15: { // dominates(): both clauses, boundaries
         emit_dom(vec({1, 1}), vec({1, 1})); emit_dom(vec({1, 1}), vec({1 + 0x1p-20, 1})); emit_dom(vec({1, 1}), vec({1 + 0x1p-19, 1}));
